@@ -931,6 +931,8 @@ impl LocalPeerService {
                         .database
                         .add_nodes(room_id, nodes_to_insert)
                         .await?;
+                    //the references of a row that was not accepted are not requested
+                    edge_list.retain(|e| !res.contains(&e.0));
                     if !res.is_empty() {
                         #[cfg(feature = "log")]
                         error!(
@@ -996,6 +998,8 @@ impl LocalPeerService {
                     .database
                     .add_nodes(room_id, nodes_to_insert)
                     .await?;
+                //the references of a row that was not accepted are not requested
+                edge_list.retain(|e| !res.contains(&e.0));
                 if !res.is_empty() {
                     #[cfg(feature = "log")]
                     error!(
